@@ -72,6 +72,12 @@ theorem jobMoves_rel_work {s0 : Sys} {a : Action} (R : Job → Job → Prop)
       cases h2
       refine htrans _ _ _ (ih j jo h1 rfl) ?_
       exact hset _ _ _ (hsync jo sp ha hc hf) rfl
+    | ctlStatusOn jo sp rv0 rv ha hc hf _ =>
+      cases h2
+      refine htrans _ _ _ (ih j _ h1 rfl) ?_
+      -- the object `Update` produced carries the status of the cached Job
+      refine htrans _ jo.job _ (hset _ _ _ (hrefl _) rfl) ?_
+      exact hset _ _ _ (hsync jo sp ha hc hf) rfl
 
 /-! ### recorded `Succeeded` results -/
 
